@@ -238,7 +238,7 @@ func runC01Validate(c *Ctx) {
 	// who may call
 	for callee, allowed := range map[string][]string{
 		"geom.(*doublyConnectedEdgeList).extractGeometry": {"geom.setOp"},
-		"geom.newDCELFromGeometries":                        {"geom.setOp", "geom.Relate"},
+		"geom.newDCELFromGeometries":                      {"geom.setOp", "geom.Relate"},
 	} {
 		cf := c.P.Func(callee)
 		if cf == nil {
